@@ -123,7 +123,16 @@ def _tables(rng, op):
         return [a, b]
     if op.startswith('merge'):
         return [t(['k', 'v', 'id'], rng.randint(0, 4), 'a'), t(['k', 'v', 'id'], rng.randint(0, 4), 'b')]
-    return [t(['k', 'v', 'id'], rng.randint(0, 5), 'L'), [['k', 'w']] + [[rng.choice(kp), 'R%d' % i] for i in range(rng.randint(0, 4))]]
+    left = t(['k', 'v', 'id'], rng.randint(0, 5), 'L')
+    right = [['k', 'w']] + [[rng.choice(kp), 'R%d' % i] for i in range(rng.randint(0, 4))]
+    if op != 'antijoin' and rng.random() < 0.3:
+        # ragged in the trailing non-key fields (the key cell always exists): the joins square such rows up themselves,
+        # whatever the strategy arguments
+        for tbl in (left, right):
+            for i in range(1, len(tbl)):
+                if rng.random() < 0.4:
+                    tbl[i] = tbl[i][:rng.randint(1, len(tbl[i]) - 1)] if rng.random() < 0.8 else tbl[i] + ['extra']
+    return [left, right]
 
 
 def cases(ctx):
